@@ -100,6 +100,69 @@ class Caller:
             return self.P.call(m, fr, v.payload, args)
         raise Unsupported('call of a function value that is not a known closure or function item: %r' % (v,))
 
+    def call_merged(self, m, fr, spec, clo, args, home=None, limit=8):
+        """call a closure whose only inputs are immutable scalars and shared captures, exploring ITS OWN branches in a nested
+        machine and merging the results into if-then-else values (state merging for pure closures: keeps a per-element branch such as
+        `if self.test(i) { '1' } else { '0' }` from doubling the number of paths for every element). Falls back to a plain call whenever
+        the closure is not obviously pure or the results do not have one mergeable shape."""
+        from .core import Machine
+        if spec.kind != 'closure' or not all(isinstance(_load1(a), (I, bool)) or isinstance(a, I) for a in args):
+            return self.call(m, fr, spec, clo, args, home)
+        f = self.closure_fn(spec.what, fr, args, home if home is not None else getattr(clo, 'home', None))
+        # purity (syntactic): no local of a `&mut` type besides the closure itself, no assignment through the captures
+        stmts = [x for b in f.blocks.values() for x in b]
+        if any(t.startswith('&mut') for k_, t in f.types.items() if k_ != '_1') or \
+           any(re.match(r'^\(\*\(+\*?_1\)*\.\d+', x) for x in stmts):
+            return self.call(m, fr, spec, clo, args, home)
+        results, prefix = [], []
+        while True:
+            sub = Machine(self.P)
+            sub.pc = list(m.pc)
+            sub.solver.add(m.pc)
+            sub.prefix = prefix
+            sub.env = m.env
+            sub.cache = {}
+            try:
+                r = self.call(sub, fr, spec, copyval(clo), [copyval(a) for a in args], home)
+            except Panic:
+                return self.call(m, fr, spec, clo, args, home)      # let the ordinary path report it
+            results.append((sub.pc[len(m.pc):], r))
+            m.nq += sub.nq
+            tr = sub.trace
+            while tr and tr[-1][0] + 1 >= tr[-1][1]:
+                tr.pop()
+            if not tr:
+                break
+            if len(results) >= limit:
+                return self.call(m, fr, spec, clo, args, home)
+            prefix = [c for c, _ in tr[:-1]] + [tr[-1][0] + 1]
+        if len(results) == 1:
+            return results[0][1]        # pure and branch-free: the nested run's value is the value
+
+        def cond(pcs):
+            return z3.And(pcs) if pcs else z3.BoolVal(True)
+
+        def merge(vals):
+            v0 = vals[0][1]
+            if all(isinstance(v, I) for _, v in vals) and len({v.ty for _, v in vals}) == 1:
+                acc = vals[-1][1].z()
+                for c, v in reversed(vals[:-1]):
+                    acc = z3.If(cond(c), v.z(), acc)
+                return mk_int(acc, v0.ty)
+            if all(isinstance(v, (bool, z3.BoolRef)) for _, v in vals):
+                acc = vals[-1][1] if not isinstance(vals[-1][1], bool) else z3.BoolVal(vals[-1][1])
+                for c, v in reversed(vals[:-1]):
+                    acc = z3.If(cond(c), v if not isinstance(v, bool) else z3.BoolVal(v), acc)
+                return mk_bool(acc)
+            if all(isinstance(v, Vec) for _, v in vals) and len({(len(v.items), v.is_str) for _, v in vals}) == 1:
+                items = [merge([(c, v.items[k]) for c, v in vals]) for k in range(len(v0.items))]
+                return Vec(items, v0.is_str)
+            raise Unsupported('unmergeable')
+        try:
+            return merge(results)
+        except Unsupported:
+            return self.call(m, fr, spec, clo, args, home)
+
     def call(self, m, fr, spec, clo, args, home=None):
         if spec.kind == 'path':
             return self.P.call(m, fr, spec.what, args)
@@ -485,6 +548,8 @@ def install_std_models(P):
         meth, gen = mm.group(3), mm.group(4)
         specs = fn_specs(gen)
         call = (lambda mach, clo, args, s=(specs[-1] if specs else None): C.call(mach, fr, s, clo, args)) if specs else None
+        if specs and meth == 'map' and getattr(P, 'merge_pure_closures', False):
+            call = lambda mach, clo, args, s=specs[-1]: C.call_merged(mach, fr, s, clo, args)
         if meth in ('next', 'next_back'):
             it = to_iter(a[0])
             return _some(it.next(m) if meth == 'next' else it.next_back(m))
